@@ -33,7 +33,8 @@ RULE = (
     "opens committed showing exactly the state at commit_patch; every fourth record is crashed in the cycle that CREATES it "
     "(patch 0, the base container, nothing committed before). Recovery stage: on crashed sets that open, an ordinary "
     "session (open r+ / a, write, close) is run; if it succeeds, a read-only open must show what it saw before close, "
-    "committed. non-trivial = crash inside the cycle (not before/after); "
+    "committed; merge_files on a set that opens uncommitted must not "
+    "yield a cleanly opening container. non-trivial = crash inside the cycle (not before/after); "
     "distinct = (record, engine, crash point)."
 )
 ANCHORS = ["src/metador_core/ih5/record.py", "src/metador_core/ih5/manifest.py"]
@@ -205,7 +206,39 @@ def oracle(cls, d, committed, ledger, view_commit, view_new, state_commit=None, 
         gc.collect()
 
 
-def recovery(cls, d, mode):
+def launder(cls, d):
+    """The crashed set opens with the interrupted patch marked uncommitted: no operation on the read-only record may turn that
+    into a cleanly opening record (merge_files must refuse). -> None | (kind, detail)"""
+    d = Path(d)
+    r, err = RE.try_open(cls, d / "rec", "r")
+    if r is None:
+        return None
+    out = d / "merged-out"
+    out.mkdir(exist_ok=True)
+    try:
+        try:
+            m = r.merge_files(out / "m")
+        except Exception:
+            return None
+        finally:
+            RE.safe_close(r, commit=False)
+        r2, err = RE.try_open(cls, out / "m", "r")
+        if r2 is None:
+            return None
+        try:
+            clean = RE.is_committed_on_disk(Path(r2.ih5_files[-1]))
+        finally:
+            RE.safe_close(r2, commit=False)
+        if clean:
+            return ("uncommitted-state-merged-clean", "merge_files on the crashed set (newest container uncommitted, opened read-only) returns a container that opens cleanly, "
+                                                      "carrying a payload hash for content that was never committed")
+        return None
+    finally:
+        shutil.rmtree(out, ignore_errors=True)
+        gc.collect()
+
+
+def recovery(cls, d, mode, exts_expected=None):
     """An ordinary patching session on the crashed file set (no crash in it): if opening for writing, writing and closing
     all succeed, what it committed must be there afterwards. -> (outcome, None) | (None, (kind, detail))"""
     d = Path(d)
@@ -233,6 +266,9 @@ def recovery(cls, d, mode):
             return None, ("recovery-session-state", f"after a recovery session (mode '{mode}') the record shows another state than the session saw before close: {df[2] if df else ''}")
         if not RE.is_committed_on_disk(Path(r2.ih5_files[-1])):
             return None, ("recovery-session-uncommitted", "close() of the recovery session returned but the newest container is not committed")
+        if exts_expected is not None and isinstance(r2, RE.IH5MFRecord) and r2.manifest.manifest_exts != exts_expected:
+            return None, ("recovery-session-manifest-exts", f"the recovery session did not override the manifest extensions, yet they changed from {exts_expected} "
+                                                            f"(last committed manifest) to {r2.manifest.manifest_exts}")
     finally:
         RE.safe_close(r2, commit=False)
         gc.collect()
@@ -283,7 +319,14 @@ def run_record(acc, base, clsname, seed, tier, engines):
             jctr[0] += 1
             if out in ("opens-uncommitted", "opens-committed-new", "opens-committed-old") and (out == "opens-uncommitted" or jctr[0] % 5 == 0):
                 mode = ("r+", "a")[jctr[0] % 2]
-                rout, rbad = recovery(cls, w, mode)
+                rbad = launder(cls, w) if out == "opens-uncommitted" else None
+                if rbad:
+                    rout = None
+                    acc.count("merge_attempts_on_uncommitted_sets")
+                else:
+                    if out == "opens-uncommitted":
+                        acc.count("merge_attempts_on_uncommitted_sets")
+                    rout, rbad = recovery(cls, w, mode)  # (manifest extensions after recovery are C10's business and judged there)
                 if rbad:
                     acc.violation(f"{rbad[0]}:{engine}:{clsname}", f"{rbad[1]} [engine {engine}, crash point {point}, outcome before recovery {out}, record {rid}{', crash while creating the base container' if create else ''}]",
                                   {"cls": clsname, "seed": seed, "engine": engine, "point": point})
@@ -472,6 +515,8 @@ def inconclusive(cov):
         r.append("no record crashed while its base container was created")
     if not c.get("recovery.opens-uncommitted.recovered"):
         r.append("no recovery session on an uncommitted crashed set")
+    if not c.get("merge_attempts_on_uncommitted_sets"):
+        r.append("no merge attempt on an uncommitted crashed set")
     return r
 
 
